@@ -128,6 +128,8 @@ func main() {
 			}
 		}()
 		pack.Run(p, r, *tier)
+		rules.Common(*prop, p, r)
+		rules.RunImports(*prop, p, r, *tier)
 	}()
 	known, err := core.LoadKnown(filepath.Join(*verif, "known_findings.json"))
 	if err != nil {
